@@ -333,6 +333,16 @@ class C16(Prop):
             r.check_close("sine.endpoint", [bas.dvr_x[0], bas.dvr_x[-1]], [xi, xf], 1e-12 * max(1.0, ref.xmax), "x_1=xi, x_N=xf")
         r.check_close("sine.dvr_v", bas.dvr_v, ref.V, 1e-13, "grid transformation matrix")
         r.check("sine.attrs", bas.nbas == N and not bas.sigmaqn.any() and bas.dofs == (name,), "nbas/sigmaqn/dofs")
+        # copy(new_dof): the same basis under another name (the translation-invariant builder and add_auxiliary_space copy basis sets)
+        cp, okc = _call(r, "sine.copy", lambda: bas.copy("copied_dof"))
+        if okc:
+            r.check("sine.copy.attrs", cp.nbas == N and cp.dofs == ("copied_dof",) and type(cp) is type(bas), "nbas / dofs / type of the copy")
+            r.check_close("sine.copy.grid", cp.dvr_x, bas.dvr_x, 1e-12 * max(1.0, ref.xmax), "grid of the copy")
+            for sym in ("x", "dx^2", "x dx"):
+                a_, ok1 = _call(r, f"sine.copy.op_mat[{sym}]", lambda: cp.op_mat(sym))
+                b_, ok2 = _call(r, f"sine.op_mat[{sym}]", lambda: bas.op_mat(sym))
+                if ok1 and ok2:
+                    r.check_close("sine.copy.op_mat", a_, b_, 1e-12 * ref.scale(2, 2), f"op_mat('{sym}') of the copy vs the original (dvr={dvr}, endpoint={endpoint})")
         for sym, (m, n, pre) in U.SINE_SYMBOLS.items():
             got, ok = _call(r, f"sine.op_mat[{sym}]", lambda: self._opmat(bas, spec, sym))
             if not ok:
